@@ -1,11 +1,11 @@
 package main
 
 import (
-	"sync/atomic"
 	"fmt"
 	"net/http"
 	"net/http/httptest"
 	"strings"
+	"sync/atomic"
 
 	restful "github.com/emicklei/go-restful/v3"
 )
